@@ -1163,7 +1163,10 @@ impl Scenario for C08 {
          string (1-6 well-formed Serial/Reset queries of one version, optionally one final erroneous \
          unit, optionally EOF) under a tape-chosen schedule of: delivering the next 1..n bytes, \
          notify(), source update+notify, yields (server task gets polled), spurious wake-ups and \
-         reading 1..n bytes of output from a small output buffer. The sweep walks version x cut \
+         reading 1..n bytes of output from a small output buffer. One random run in four has a second \
+         connection on the same server (own Reset Query answered first, then silent; or stalled and \
+         never read), one in three an idle application-side NotifyReceiver, one in six a notify() \
+         before the connection task was first polled. The sweep walks version x cut \
          position 0..12 x query kind x extra yields x notify slot deterministically. After the schedule \
          all remaining bytes are delivered, output is drained and the run settles; then the output is \
          compared with a sequential reference model fed with the logged source answers. A run is \
@@ -1192,6 +1195,7 @@ impl Scenario for C08 {
     fn assumptions(&self) -> Vec<&'static str> {
         vec![
             "while the source reports ready() == false a well-formed query gets exactly one Error PDU (the statement does not list this case; this is what the code documents) - toggled in the dynamic class",
+            "the second connection's handshake is completed before the main client sends anything, so that source calls can be attributed to a connection without relying on how the server clones its source",
             "notify() on a live, framed connection must be followed by a Serial Notify by the time the system is quiescent (bursts may be coalesced: one PDU written after the last call is enough; a call that the client's EOF overtakes before the server runs again is forgiven; a connection parked inside an incomplete query is exempt)",
             "erroneous units that are exactly one 8-byte header long (unknown type, other version, too-new version) may appear anywhere and the queries after them must still be answered; an erroneous unit longer than its header (wrong length, Serial Query with a bad version) leaves the stream unframed, so at most one of those per script, placed last, and nothing is required after its Error PDU",
             "Error PDUs are compared by type and framing only, plus code 4 in a supported version for the unsupported-version case",
